@@ -6,6 +6,12 @@ Ties:  K  dflt.literal  real `json_to_rust_literal` on (JSON value x TypeRef), t
                         `#[builder(..)]`, field type, struct-level `#[serde(default)]`, derives, and the
                         `#[default]` variant / fields of the member's generated type, read with syn;
                         JUDGED through the trusted semantics of those attributes (Sem/Defaults.lean)
+       E  dflt.doc      real generator (in-process) on documents with SEVERAL sites (component structs, inline objects at
+                        sibling properties / different holders / array items, query / header parameter structs) for
+                        {types, client-mod, server-mod} x {request only, response only, both, parameter, unreferenced}:
+                        every site path is followed through the emitted field types to the struct it resolves to; judged
+                        per site on the derives and attributes that struct really carries (if it derives Deserialize,
+                        decode-omitted must give the default declared AT THAT SITE), DESIGN 12.10
        A  dflt.run      (thorough) the emitted types compiled in an arena crate against the documented
                         runtime crates and EXECUTED: decode of a document omitting the member,
                         `T::default()`, `T::builder().build()`, re-encoding — judged directly, and
@@ -489,5 +495,6 @@ def run(ctx):
         rule="K: every (TypeRef base x JSON value x nullable x array) of a 21 x 95 table through the real json_to_rust_literal (+ random ints/decimals/strings), extract_default_value on all default/const/enum combinations; "
              "E: bounded-exhaustive member grammar {string, integer x 9 formats, number x 3 formats, boolean, string formats date/date-time/uuid, enum inline/$ref, inline object, arrays of 4 item types, nullable} x "
              "{default values of the matching JSON type incl. range ends, string-encoded ints/decimals/bools, null} x {default, const, single enum} x {required, optional} x {builders on, off} (all in thorough, sample in quick) through the real generator in-process; "
+             "E on documents (dflt.doc): 13 core member shapes x {types, client-mod, server-mod} x {req, resp, both, param(query, header), none} x builders + a sample of the member space under random target/usage; 2-3 same-shaped inline objects differing only in default values / only in annotations / both / not at all, at sibling properties, different holders, array items, request vs response holders, in both orders, judged per site; "
              "A (thorough): 700+ of those compiled and executed; non-trivial = any branch; distinct by input hash",
         assumptions=["the member is named `mem` in struct `T` with one optional sibling (field naming/renames are C09/C02)", "default enum mode, no discriminator, no OData"])
